@@ -237,6 +237,9 @@ func Run(c *core.Ctx, replay string) (*core.Result, error) {
 					fvargs = append(fvargs, map[string]string{"name": n, "v": v})
 				}
 				formjson := `{"N":5}`
+				if ep.JSONType == "string" {
+					formjson = []string{`"some \"quoted\" text"`, `""`}[rep]
+				}
 				filename := "up load.txt"
 				args := map[string]any{"body": body, "formvalues": fvargs, "filename": filename, "formjson": formjson, "query": qargs}
 				var argv []argSpec
